@@ -684,6 +684,11 @@ func (n *vnet) forge(op gOp) {
 		}
 	case 4:
 		gs = append(gs, &pb.Gossiper{Address: victim.w.Address(), Digest: bytes.Repeat([]byte{7}, 32), Signature: bytes.Repeat([]byte{9}, 64)})
+	case 7:
+		// menu 4 a hundred and twenty times over: a list far longer than any honest network produces
+		for k := 0; k < 120; k++ {
+			gs = append(gs, &pb.Gossiper{Address: victim.w.Address(), Digest: bytes.Repeat([]byte{7}, 32), Signature: bytes.Repeat([]byte{9}, 64)})
+		}
 	case 5:
 		gs = append(gs, seen...)
 		gs = append(gs, sign(bad.w, bad.w.Address(), h))
